@@ -7,6 +7,8 @@ mod c17;
 mod c08;
 mod c02;
 mod c04;
+mod c05;
+mod c11;
 mod gen;
 mod dicts;
 mod texts;
@@ -29,6 +31,9 @@ fn main() {
         "c04-replay" => c04::replay(rest),
         "c04-record" => c04::record(rest),
         "c04-why" => c04::why(rest),
+        "c05-replay" => c05::replay(rest),
+        "c05-record" => c05::record(rest),
+        "c11-record" => c11::record(rest),
         other => {
             eprintln!("unknown subcommand {}", other);
             2
